@@ -287,3 +287,75 @@ Example nv_atomic_history_with_late_failures :
   map (fun o => match o with Some (OOk _) => true | _ => false end) (snd (run_events init_sys late_evs)) =
     [true; true; false; false; false].
 Proof. unfold atomic_hyps. vsplit. Qed.
+
+
+(* ---- the oracle of the C14 check (Spec/HistObs.v) and C14_atomic ----
+   Every run of the check evaluates, per history (statements - failing ones among them -, flushes,
+   read-backs before and after each failing statement, a crash-restart, a read-back) `model_agrees`
+   (Go's observations equal run_h's) and the strict oracle `spec_accepts_strict`: a statement that
+   returns an error leaves every table as it was (the candidates are unchanged), also after a flush
+   and after a crash-restart, and it may be refused only if the specification refuses it too.
+   Agreement implies acceptance for EVERY case built from statements, flushes, crash-restarts,
+   read-backs and page dumps, under the boolean hypotheses of C01full.v on the events alone
+   (Proofs/OracleSound.v, OracleCrash.v; the model side of "leaves every table as it was" is
+   C14_atomic_rep = FailsEarly.stmt_err_unchanged, of "only if the specification refuses" is
+   OracleSound.model_refusal_justified). *)
+From Mkdb Require Import Proofs.OracleSound Proofs.OracleCrash Proofs.OracleTorn.
+
+Theorem C14_agreement_implies_acceptance : forall c,
+  hist_shape_c (fst c) = true -> forallb hev_ok (fst c) = true -> forallb hev_stmt_shape (fst c) = true ->
+  frontier_ok init_sys (fst c) = true -> reads_cover [] [] [] (fst c) = true -> forallb strict_hev (fst c) = true ->
+  model_agrees c = true -> spec_accepts_strict c = true.
+Proof. exact agreement_implies_strict_acceptance_crash'. Qed.
+Print Assumptions C14_agreement_implies_acceptance.
+
+Theorem C14_oracle_accepts_model : forall hevs,
+  hist_shape_c hevs = true -> forallb hev_ok hevs = true -> forallb hev_stmt_shape hevs = true ->
+  frontier_ok init_sys hevs = true -> reads_cover [] [] [] hevs = true -> forallb strict_hev hevs = true ->
+  spec_accepts_strict (hevs, run_h init_sys hevs) = true.
+Proof. exact model_passes_oracle_crash_strict. Qed.
+Print Assumptions C14_oracle_accepts_model.
+
+(* non-vacuity: the two former DML witnesses in one history, each between read-backs - the
+   two-row INSERT whose second row is out of INT range, the UPDATE whose second matching row would
+   exceed 400 bytes -, then a flush, a refused DELETE (unknown column), a crash-restart, read-back *)
+Definition hx_fail : list hevent :=
+  map HEv w2_evs ++
+  [HReadTables ["t"];
+   HEv (EvStmt (SInsert "t" [] [[VInt 3; VStr "p"; VStr "q"]; [VInt 2147483648; VStr "p"; VStr "q"]]));
+   HReadTables ["t"];
+   HEv (EvStmt w2_st);
+   HReadTables ["t"];
+   HEv EvFlush;
+   HEv (EvStmt (SDelete "t" (Some (EPred (XCol (mkCol "" "nosuch")) CEq (XLit (VInt 1))))));
+   HReadTables ["t"];
+   HEv EvCrash;
+   HReadTables ["t"; "sys_schema"]].
+
+Example C14_agreement_nonvacuous :
+  hist_shape_c hx_fail = true /\ forallb hev_ok hx_fail = true /\ forallb hev_stmt_shape hx_fail = true /\
+  frontier_ok init_sys hx_fail = true /\ reads_cover [] [] [] hx_fail = true /\ forallb strict_hev hx_fail = true /\
+  model_agrees (hx_fail, run_h init_sys hx_fail) = true /\
+  spec_accepts_strict (hx_fail, run_h init_sys hx_fail) = true /\
+  map (fun o => match o with HOut x => Some x | _ => None end) (run_h init_sys hx_fail) =
+    [Some OBok; Some OBok; None; Some (OBerr EIntRange); None; Some (OBerr ERowTooLarge); None; Some OBok;
+     Some (OBerr EFieldNotFound); None; Some OBok; None] /\
+  nth 2 (run_h init_sys hx_fail) HNone = nth 4 (run_h init_sys hx_fail) HNone /\
+  nth 2 (run_h init_sys hx_fail) HNone = nth 6 (run_h init_sys hx_fail) HNone /\
+  nth 2 (run_h init_sys hx_fail) HNone = nth 9 (run_h init_sys hx_fail) HNone.
+Proof. vm_compute. repeat split; reflexivity. Qed.
+
+(* the oracle is not the constant true on such cases: the former behaviour (row 1 of the failing
+   INSERT stays in the table), and a refusal of a statement the specification accepts, are rejected *)
+Definition hx_fail_short : list hevent :=
+  (map HEv w1_evs ++ [HEv (EvStmt w1_st); HReadTables ["t"]])%list.
+Example C14_oracle_rejects :
+  run_h init_sys hx_fail_short = [HOut OBok; HOut (OBerr EIntRange); HTables [("t", TRows ["a"] [])]] /\
+  spec_accepts_strict (hx_fail_short, run_h init_sys hx_fail_short) = true /\
+  spec_accepts_strict (hx_fail_short, [HOut OBok; HOut (OBerr EIntRange); HTables [("t", TRows ["a"] [(11%N, [VInt 1])])]]) = false /\
+  spec_accepts_prefix_on_error (hx_fail_short, [HOut OBok; HOut (OBerr EIntRange); HTables [("t", TRows ["a"] [(11%N, [VInt 1])])]]) = true /\
+  spec_accepts_strict ((map HEv w1_evs ++ [HEv (EvStmt (SInsert "t" [] [[VInt 1]])); HReadTables ["t"]])%list,
+                       [HOut OBok; HOut (OBerr EOther); HTables [("t", TRows ["a"] [])]]) = false /\
+  spec_accepts ((map HEv w1_evs ++ [HEv (EvStmt (SInsert "t" [] [[VInt 1]])); HReadTables ["t"]])%list,
+                [HOut OBok; HOut (OBerr EOther); HTables [("t", TRows ["a"] [])]]) = true.
+Proof. vm_compute. repeat split; reflexivity. Qed.
